@@ -104,12 +104,29 @@ def handle (line : String) : String :=
 
 structure DriverState where
   heap : Session := {}
+  table : OpTable := builtinTable     -- the registries after the user registrations made so far (`register`)
+
+def sortedBytes (l : List Bytes) : List Bytes := (l.toArray.qsort (fun a b => decide (compare (a.map (·.toNat)) (b.map (·.toNat)) = .lt))).toList
 
 def handleSt (st : DriverState) (line : String) : DriverState × String :=
   match line.splitOn "\t" with
   | "heap" :: rest =>
     let (s, out) := st.heap.step rest
     ({ st with heap := s }, out)
+  | ["register", x, p, r] => match fromHex x, p.toNat? with
+    | some alias, some prior => ({ st with table := st.table.addOperation alias prior (r == "1") }, "ok")
+    | _, _ => (st, "bad-req")
+  | ["regdump"] =>
+    -- the registries as `VerifRegistry` reports them: operators sorted by name with priority and associativity, priority bytes
+    let ops := (sortedBytes st.table.operations).map (fun op => s!"{hexOrDash op}:{st.table.prio op}:{if st.table.isRight op then 1 else 0}")
+    let chars := (st.table.priorityChar.map (·.toNat)).toArray.qsort (· < ·)
+    (st, "ok " ++ ",".intercalate ops ++ " " ++ ",".intercalate (chars.toList.map toString))
+  | ["rpnu", x] => match fromHex x with
+    | some bs => (st, match Cur.rpn st.table bs with
+      | .ok toks => "ok " ++ ",".intercalate (toks.map hexOrDash)
+      | .err e => errStr e
+      | .panic s => "panic " ++ s)
+    | none => (st, "bad-hex")
   | _ => (st, handle line)
 
 partial def loop (hin : IO.FS.Stream) (hout : IO.FS.Stream) (st : DriverState) : IO Unit := do
